@@ -9,6 +9,7 @@ package main
 import (
 	"bytes"
 	"encoding/binary"
+	"flag"
 	"fmt"
 	"os"
 	"regexp"
@@ -78,6 +79,12 @@ func expected(name string, k *cuworld.Kernel, g cuworld.Geometry) []byte {
 			out(uint32(l) + 3)
 			le.PutUint32(m[cuworld.Tmp+4*gid:], uint32(l)+2)
 			le.PutUint32(m[cuworld.Out2+4*gid:], uint32(l)+3)
+		case "k12_register_signature_survives_neighbour_exit":
+			if l >= 64 {
+				wf := uint32(l / 64)
+				sx := (wf + 0x1100) ^ (wf + 0x2200) ^ (wf + 0x3300) ^ (wf + 0x4400) ^ (wf + 0x5500) ^ (wf + 0x6600) ^ (wf + 0x7700) ^ (wf + 0x8800)
+				out(8*uint32(l) + 0x10 + 0x20 + 0x30 + 0x40 + 0x50 + 0x60 + 0x70 + 0x80 + sx + in(gid))
+			}
 		default:
 			panic("no reference for " + name)
 		}
@@ -281,9 +288,24 @@ func body(k *cuworld.Kernel, g cuworld.Geometry, o cuworld.TimingOpts) explore.B
 }
 
 func main() {
-	r := harness.Start("C14", "model_checking")
+	// as the part "cu" of check C07 this binary runs the scenarios in which wavefronts of different age share the
+	// CU's register files (a neighbour ends early; a kernel with more registers ran before) and reports only what
+	// concerns register contents: wrong values, faults, stray memory accesses
+	partOf := ""
+	for _, a := range os.Args[1:] {
+		if strings.HasPrefix(a, "-part-of=") {
+			partOf = strings.TrimPrefix(a, "-part-of=")
+		}
+	}
+	flag.String("part-of", "", "run as the part 'cu' of that check (C07)")
+	var r *harness.Run
+	if partOf != "" {
+		r = harness.StartPart(partOf, "cu", "model_checking")
+	} else {
+		r = harness.Start("C14", "model_checking")
+	}
 	ks := cuworld.LoadKernels(harness.Dir())
-	names := []string{"k1_lds_barrier", "k2_global_barrier", "k3_two_barriers", "k4_waitcnt_vm", "k5_waitcnt_lgkm", "k6_early_exit_before_barrier", "k7_late_exit_without_barrier", "k8_store_then_endpgm", "k9_exit_with_pending_store_while_others_wait", "k10_many_scalar_loads", "k11_many_stores"}
+	names := []string{"k1_lds_barrier", "k2_global_barrier", "k3_two_barriers", "k4_waitcnt_vm", "k5_waitcnt_lgkm", "k6_early_exit_before_barrier", "k7_late_exit_without_barrier", "k8_store_then_endpgm", "k9_exit_with_pending_store_while_others_wait", "k10_many_scalar_loads", "k11_many_stores", "k12_register_signature_survives_neighbour_exit"}
 
 	// --- the emulation CU as a second implementation: values and executed-PC sequences
 	type geo = cuworld.Geometry
@@ -370,6 +392,17 @@ func main() {
 		o := cuworld.TimingOpts{Resident: sl.g.NumWG, Delays: []int{9, 60}, SlowScalar: sl.s, SlowVector: sl.v, SlowInst: sl.i, Horizon: 60000}
 		scs = append(scs, harness.Scenario{Name: fmt.Sprintf("%s/wg%dx%d/slow-memory(s%d,v%d,i%d)/resident%d", sl.k, sl.g.WGSize, sl.g.NumWG, sl.s, sl.v, sl.i, sl.g.NumWG), Bound: b, Body: body(ks[sl.k], sl.g, o)})
 	}
+	// launch history: a kernel that declared many more registers ran on the CU before (state kept across kernels)
+	for _, n := range []string{"k1_lds_barrier", "k6_early_exit_before_barrier", "k7_late_exit_without_barrier", "k9_exit_with_pending_store_while_others_wait", "k4_waitcnt_vm", "k12_register_signature_survives_neighbour_exit"} {
+		for _, g := range []geo{{128, 1}, {256, 1}, {128, 2}} {
+			o := cuworld.TimingOpts{Resident: g.NumWG, Delays: []int{9, 60}, WarmSGPRs: 102, WarmVGPRs: 96}
+			b := 0
+			if r.Thorough() || g.WGSize == 128 && g.NumWG == 1 {
+				b = 1
+			}
+			scs = append(scs, harness.Scenario{Name: fmt.Sprintf("%s/wg%dx%d/after-larger-kernel/resident%d", n, g.WGSize, g.NumWG, g.NumWG), Bound: b, Body: body(ks[n], g, o)})
+		}
+	}
 	r.Assume = []string{
 		"memory answers arrive in request order on each of the three memory paths (the shader array places a reorder buffer on each; that is property C15); latencies are explored",
 		"1-D work-groups whose size is a power of two and a multiple of 64",
@@ -385,6 +418,29 @@ func main() {
 			}
 		}
 		scs = f
+	}
+	if partOf != "" {
+		var f []harness.Scenario
+		for _, sc := range scs {
+			early := strings.Contains(sc.Name, "k6_") || strings.Contains(sc.Name, "k7_") || strings.Contains(sc.Name, "k9_") || strings.Contains(sc.Name, "k12_")
+			if !(strings.Contains(sc.Name, "after-larger-kernel") || early && !strings.Contains(sc.Name, "many-waiting") && !strings.Contains(sc.Name, "slow-memory")) && r.Replay == "" {
+				continue
+			}
+			inner := sc.Body
+			sc.Body = func(x *explore.Exec) *explore.Violation {
+				v := inner(x)
+				if v != nil && (strings.HasPrefix(v.Sig, "timing/wrong-values/") || strings.HasPrefix(v.Sig, "timing/panic/") || strings.Contains(v.Sig, "memory-access-out-of-range")) {
+					return v
+				}
+				return nil
+			}
+			if sc.Bound > 1 {
+				sc.Bound = 1
+			}
+			f = append(f, sc)
+		}
+		scs = f
+		r.Assume = append(r.Assume, "part cu: register contents are observed through the values the kernels store (every surviving wavefront's result depends on its own scalar and vector registers written before its neighbour ended)")
 	}
 	r.Quiet = true
 	r.Cov["emu_reference_runs"] = emuRuns
